@@ -82,6 +82,12 @@ Fixpoint ops_of (evs : list cev) : list fsop :=
   end.
 Definition convert_ops (c : ccfg) : list fsop := ops_of (fst (convert_events c)).
 
+(* configuration of a concrete call: k_outdir_ok is read off the initial state *)
+Definition ccfg_for (st : fs) (cwd : path) (input : pstr) (output : option pstr) (v : nat)
+                    (saved : res bytes) (untrusted : list pstr) : ccfg :=
+  let c0 := mkccfg cwd input output v saved untrusted true in
+  mkccfg cwd input output v saved untrusted (is_dir st (parent (out_path c0))).
+
 (* ------------------------------------------------------- canonical output *)
 Definition show_level (l : level) : pstr :=
   match l with LDebug => s "DEBUG" | LInfo => s "INFO" | LWarning => s "WARNING" end.
